@@ -111,7 +111,7 @@ func TestC04(t *testing.T) {
 		N, R int
 		T    int
 	}{{3, 2, 0}, {3, 3, 0}, {3, 2, 512}} {
-		c, err := cluster.Start(cluster.Options{Replicas: cfgc.R, Partitions: 7, Manual: true, TableSize: cfgc.T,
+		c, err := cluster.Start(cluster.Options{Replicas: cfgc.R, Partitions: 7, Manual: true, TableSize: cfgc.T, Housekeeping: housekeeping(cfgc.T),
 			DMaps: func(d *config.DMaps) { d.NumEvictionWorkers = 1 }}, cfgc.N)
 		if err != nil {
 			t.Fatal(err)
